@@ -2,7 +2,7 @@
    the outcome check against the model (mismatches) and the property on the implementation's observations (failing). *)
 From Coq Require Import List Arith Bool.
 Import ListNotations.
-From GB Require Export Conc CacheConc.
+From GB Require Export Conc CacheConc CachePersist.
 
 (* one call of one goroutine: error classes as in CacheConc (0 ok, 1 nothing to commit, 2 entity missing from
    cache, 3 not found, 4 other, 7 no commit attempted) plus 5 = the call panicked, 6 = it never returned *)
@@ -21,6 +21,9 @@ Record case := mkcase {
   c_stale : list nat;          (* once the goroutines are done, before the flush: the bugs whose excerpt in the cache is not
                                   the excerpt of the entity the cache hands out (staged operations included), or whose texts
                                   in the full-text index are not those of that entity (both are written by entityUpdated) *)
+  c_saved : list nat;          (* at a checkpoint (every goroutine has returned from its calls; the last one: the goroutines are
+                                  done): the bugs, with nothing staged, whose excerpt in the cache files as they are on disk,
+                                  loaded again by a new cache without a rebuild, is not the excerpt of the entity / of git *)
   c_fatal : nat }.             (* part C18r: unsynchronised accesses to a Go map reported by the race detector: each is a
                                   'fatal error: concurrent map read and map write' (process crash) under the wrong timing *)
 
@@ -54,6 +57,8 @@ Definition C18_allowed (c : case) : bool :=
   (negb (c_stuck c) || negb (Nat.eqb (c_evict c) 0)) &&
   (* C18_excerpts_fresh: an excerpt is stale only for a bug about which a call failed in entityUpdated / add *)
   forallb (fun b => existsb (fun x => Nat.eqb (co_bug x) b && missedb (res_of x)) (c_calls c)) (c_stale c) &&
+  (* CachePersist.saved_fresh_when_done: the saved excerpts are the excerpts of the cache; stale only where those are *)
+  forallb (fun b => existsb (fun x => Nat.eqb (co_bug x) b && missedb (res_of x)) (c_calls c)) (c_saved c) &&
   Nat.eqb (c_fatal c) 0.
 
 Fixpoint index_filter {A} (ok : A -> bool) (i : nat) (l : list A) : list nat :=
@@ -72,11 +77,13 @@ Definition C18_ok (c : case) : bool :=
           (c_bugs c) &&
   c_coherent c &&                                                                 (* the cache agrees with a rebuild *)
   is_nil (c_stale c) &&                                                           (* ... and with its own entities, before anything else touches it *)
+  is_nil (c_saved c) &&                                                           (* ... and so does the cache the next process loads from the files it saved *)
   Nat.eqb (c_fatal c) 0.                                                          (* no call can crash the process *)
 
 Definition failing (cs : list case) : list nat := index_filter C18_ok 0 cs.
 
-(* --replay: the acknowledged operations that are not stored exactly once, per (bug, operation), and the verdicts *)
+(* --replay: the acknowledged operations that are not stored exactly once, per (bug, operation), the bugs whose
+   excerpt was stale in the cache / in the saved cache loaded again, and the verdicts *)
 Definition explain (c : case) :=
   (flat_map (fun r => if ackedb r && negb (Nat.eqb (count_occ Nat.eq_dec (stored_of c (r_bug r)) (r_op r)) 1) then [(r_bug r, r_op r)] else []) (results_of c),
-   C18_allowed c, C18_ok c).
+   c_stale c, c_saved c, C18_allowed c, C18_ok c).
